@@ -29,11 +29,28 @@ impl LoggerHandle {
     }
 }
 
+/// a slow log sink (a stalling disk, a blocked pipe): every `STALL_EVERY`-th record takes `STALL_MS` ms to write.
+/// Seeded change C18-r6 panicked in `service_socket` when a call took longer than a wall-clock budget.
+static STALL_EVERY: std::sync::atomic::AtomicU64 = std::sync::atomic::AtomicU64::new(0);
+static STALL_MS: std::sync::atomic::AtomicU64 = std::sync::atomic::AtomicU64::new(0);
+static STALL_COUNT: std::sync::atomic::AtomicU64 = std::sync::atomic::AtomicU64::new(0);
+pub fn set_stall(every: u64, ms: u64) {
+    use std::sync::atomic::Ordering::SeqCst;
+    STALL_EVERY.store(every, SeqCst);
+    STALL_MS.store(ms, SeqCst);
+    STALL_COUNT.store(0, SeqCst);
+}
+
 impl log::Log for CapLogger {
     fn enabled(&self, _: &log::Metadata) -> bool {
         true
     }
     fn log(&self, record: &log::Record) {
+        use std::sync::atomic::Ordering::SeqCst;
+        let every = STALL_EVERY.load(SeqCst);
+        if every > 0 && (STALL_COUNT.fetch_add(1, SeqCst) + 1) % every == 0 {
+            std::thread::sleep(Duration::from_millis(STALL_MS.load(SeqCst)));
+        }
         let s = format!("{} {} {}", record.level(), record.target(), record.args());
         if *self.keep.lock().unwrap() {
             self.records.lock().unwrap().push(s);
